@@ -592,11 +592,13 @@ def gen_c05(seed, tier):
             me = "$sp"
             other_ent = fed.sp_entity(r.pick(others))
             layout = r.pick(["one", "two-both", "two-one-foreign", "multi-aud", "foreign", "foreign-first",
-                             "none"])
+                             "none", "nobody", "me-and-nobody"])
             d["audiences"] = {"one": [[me]], "two-both": [[me], [me, other_ent]],
                               "two-one-foreign": r.pick([[[me], [other_ent]], [[other_ent], [me]]]),
                               "multi-aud": [[other_ent, me]], "foreign": [[other_ent]],
-                              "foreign-first": [[other_ent], [other_ent, me]], "none": []}[layout]
+                              "foreign-first": [[other_ent], [other_ent, me]], "none": [],
+                              # a restriction that lists no audience at all (nobody is addressed)
+                              "nobody": [[]], "me-and-nobody": r.pick([[[me], []], [[], [me]]])}[layout]
             if r.chance(0.3):
                 d["scd_irt"] = r.pick(["id-someoneelse0000001", None])
                 if r.chance(0.4):
